@@ -839,6 +839,8 @@ class X12ContextReader(object):
                     self.control_map = map_if.load_map_file(map_file_isa, self.param, self.map_path)
                 tpath = '/ISA_LOOP/ISA'
                 self.x12_map_node = self.control_map.getnodebypath(tpath)
+                # a new interchange: nothing of the one before counts any more
+                self._reset_counter_to_isa_counts()
             elif seg.get_seg_id() == 'GS':
                 tpath = '/ISA_LOOP/GS_LOOP/GS'
                 self.x12_map_node = self.control_map.getnodebypath(tpath)
